@@ -40,7 +40,12 @@ def edit_job(job):
         return (p, None)
     mname, mctx = rng.choice(cands)
     kind = rng.choice(["local", "export"])
-    if forced is not None:
+    if forced is not None and isinstance(forced[0], str):
+        hit = [c for c in cands if c[0] == forced[0]]
+        if not hit:
+            return (p, None)
+        (mname, mctx), kind = hit[0], forced[1]
+    elif forced is not None:
         if forced[0] >= len(cands):
             return (p, None)
         (mname, mctx), kind = cands[forced[0]], forced[1]
@@ -54,6 +59,24 @@ def edit_job(job):
     r1 = projrun.run_impl(q)
     return (p, {"module": mname, "context": mctx, "kind": kind, "var": var, "val": val, "r0": {"dump": r0["dump"], "ninja": r0["ninja"]},
                 "r1": {"dump": r1["dump"], "ninja": r1["ninja"], "status": projrun.impl_status(r1), "stderr": r1["stderr"][-200:]}, "edited": q})
+
+
+def graft_conditional(p, i):
+    """a conditional dependency whose condition module is not part of the build while its target is (selected by another path):
+    the user does not import the target, so the target's exported variables must not reach it"""
+    rng = random.Random(i)
+    p = copy.deepcopy(p)
+    root = p["files"]["laze-project.yml"][0]
+    mods = root.setdefault("modules", [])
+    mods.append({"name": "cabs", "sources": ["cabs.c"]})
+    mods.append({"name": "ctgt", "sources": ["ctgt.c"], "env": {"export": {"CFLAGS": ["-DTGT"]}}})
+    mods.append({"name": "cusr", "sources": ["cusr.c"], "depends": [{"cabs": [rng.choice(["ctgt", "?ctgt"])]}]})
+    if rng.random() < 0.5:
+        mods.append({"name": "cusr2", "sources": ["cusr2.c"], "depends": ["cusr"]})
+    for kind, m, path in projcheck.yaml_modules(p):
+        if kind == "apps":
+            m["depends"] = list(m.get("depends") or []) + ["cusr2" if any(x["name"] == "cusr2" for x in mods) else "cusr", "ctgt"]
+    return p
 
 
 def worker(jobs):
@@ -121,6 +144,7 @@ def run(chk):
                 "the module's own statements (and for export edits there is at least one user and one non-user); distinct by project+kind")
     projcheck.campaign(chk, PROF, 150 if chk.tier == "quick" else 4000, OBS, None, lambda c, p, r, m: False, label="corr:")
     jobs = [(projgen.gen_project(chk.seed + 500, i, PROF), chk.seed * 131 + i) for i in range(n)]
+    jobs += [(graft_conditional(projgen.gen_project(chk.seed + 550, i, PROF), i), i, ("ctgt", "export")) for i in range(max(10, n // 10))]
     for p, e in common.parallel_map(worker, jobs):
         judge(chk, p, e)
     chk.assumptions = ["modules that are build dependencies (custom build / download / is_build_dep) are not edited: their outputs legitimately reach dependents"]
